@@ -467,7 +467,8 @@ class C14(E2ECheck):
             ' to k*c-1/+0/+1, powers of two +-1 and the S3 limits +-1; (c) '
             'end to end: Range / CopySourceRange / PartNumber / body length '
             'of the requests the TransferManager, the legacy S3Transfer and '
-            'the process-pool downloader issue (scaled adjuster for the '
+            'the process-pool downloader issue, plus data-less real-scale '
+            'multipart copies up to 5 TiB (scaled adjuster for the '
             'manager; the legacy uploader has no adjuster by design and is '
             'judged on tiling and numbering only); '
             'oracle = validity predicates (tiling, numbering, limits, '
@@ -577,8 +578,27 @@ class C14(E2ECheck):
     def extra_shards(self, tier):
         return 16
 
+    def huge_copies(self, tier, seed, shard, nshards, stats):
+        import hypothesis
+        from hypothesis import given, settings, HealthCheck, Phase
+        from ..runner import derive_seed
+        n = max(1, (16 if tier == 'quick' else 160) // nshards)
+
+        @hypothesis.seed(derive_seed(seed, shard, 'C14huge'))
+        @settings(max_examples=n, database=None, deadline=None,
+                  phases=[Phase.generate],
+                  suppress_health_check=list(HealthCheck))
+        @given(gen.huge_copy_cases())
+        def drive(case):
+            out = E2ECheck.execute(self, case)
+            out['cls'] = ['real-scale-copy']
+            out['nontrivial'] = True
+            stats.add(case, out, max_samples=0)
+        drive()
+
     def extra_shard(self, tier, seed, shard, nshards, stats):
         from ..units import planning
+        self.huge_copies(tier, seed, shard, nshards, stats)
         for size in range(0, 401):
             if size % nshards != shard:
                 continue
